@@ -46,18 +46,125 @@ Specials == {
   Special("long-literal", "", "ab", 20000, "", "accept"), Special("deep-lookahead", "", "(?=", 400, "", "reject")}
   \cup EmptyRepSpecials
 
+\* ---------------- numeric payloads (construction) ------------------------------------------------------------
+\* Every construct of the pattern grammar whose text carries a NUMBER that an implementation converts - a count, a decimal
+\* escape / backreference, a code point in hexadecimal - x the magnitudes at which conversions change behaviour (16, 31, 32, 63,
+\* 64 bits, the code point range, the host's limits on the length of a numeral) x, for the braced code point escape, the ways a
+\* payload can fail to be a numeral.  pattern = parts[1] \o d \o parts[2] \o d ... (the same digits d in every hole).
+Zeros(k) == [j \in 1..k |-> 48]
+Mag(name, d) == [name |-> name, d |-> d]
+DecMags == {Mag("0", U("0")), Mag("1", U("1")), Mag("9", U("9")), Mag("lead0", Zeros(24) \o U("1")), Mag("2^16-1", U("65535")), Mag("2^16", U("65536")),
+            Mag("2^31-1", U("2147483647")), Mag("2^31", U("2147483648")), Mag("2^32-1", U("4294967295")), Mag("2^32", U("4294967296")),
+            Mag("2^63-1", U("9223372036854775807")), Mag("2^63", U("9223372036854775808")), Mag("2^64", U("18446744073709551616")),
+            Mag("1e400", U("1") \o Zeros(400)), Mag("1e5000", U("1") \o Zeros(5000))}
+HexMags == {Mag("0", U("0")), Mag("41", U("41")), Mag("2^16-1", U("FFFF")), Mag("2^16", U("10000")), Mag("maxcp", U("10FFFF")), Mag("maxcp+1", U("110000")),
+            Mag("2^31-1", U("7FFFFFFF")), Mag("2^31", U("80000000")), Mag("2^32-1", U("FFFFFFFF")), Mag("2^32", U("100000000")),
+            Mag("2^63-1", U("7FFFFFFFFFFFFFFF")), Mag("2^63", U("8000000000000000")), Mag("2^64", U("10000000000000000")),
+            Mag("16^400", U("1") \o Zeros(400)), Mag("16^5000", U("1") \o Zeros(5000))}
+HexShapes == {Mag("lead0", U("000041")), Mag("lead0-long", Zeros(40) \o U("41")), Mag("lower", U("10ffff")), Mag("empty", <<>>), Mag("nonhex", U("g")),
+              Mag("plus", U("+41")), Mag("minus", U("-41")), Mag("underscore", U("1_0")), Mag("blank-before", U(" 41")), Mag("blank-after", U("41 ")),
+              Mag("prefix-0x", U("0x41")), Mag("blank-inside", U("4 1"))}
+NumForm(name, base, fl, parts, rule) == [name |-> name, base |-> base, fl |-> U(fl), parts |-> parts, rule |-> rule]
+NumForms == {
+  NumForm("count", "dec", "", <<U("a{"), U("}")>>, "count5"), NumForm("count-min", "dec", "", <<U("a{"), U(",}")>>, "count5"),
+  NumForm("count-max", "dec", "", <<U("a{0,"), U("}")>>, "count5"), NumForm("count-both", "dec", "", <<U("a{"), U(","), U("}")>>, "count5"),
+  NumForm("count-nested", "dec", "", <<U("(?:a{"), U("}){"), U("}")>>, "count2"),
+  NumForm("decimal-escape", "dec", "", <<U("\\"), <<>> >>, "dec0"), NumForm("backref", "dec", "", <<U("(a)\\"), <<>> >>, "backref1"),
+  NumForm("class-decimal", "dec", "", <<U("[\\"), U("]")>>, "dec0"),
+  NumForm("cp-escape", "hex", "", <<U("\\u{"), U("}")>>, "outside"), NumForm("cp-escape-u", "hex", "u", <<U("\\u{"), U("}")>>, "cp"),
+  NumForm("cp-class-u", "hex", "u", <<U("[\\u{"), U("}]")>>, "cpclass"),
+  NumForm("hex4", "hex", "", <<U("\\u"), <<>> >>, "hex4"), NumForm("hex2", "hex", "", <<U("\\x"), <<>> >>, "hex2")}
+CountForms == {"count", "count-min", "count-max", "count-both", "count-nested"}
+RECURSIVE Fill(_, _, _)
+Fill(parts, d, k) == IF k = Len(parts) THEN parts[k] ELSE parts[k] \o d \o Fill(parts, d, k + 1)
+IsDecUnit(u) == u \in 48..57
+IsHexUnit(u) == u \in 48..57 \/ u \in 65..70 \/ u \in 97..102
+AllUnits(d, P(_)) == \A k \in 1..Len(d) : P(d[k])
+\* number of significant digits (at least 1 for a numeral of zeros)
+Sig(d) == LET nz == {k \in 1..Len(d) : d[k] # 48} IN IF nz = {} THEN 1 ELSE Len(d) + 1 - (CHOOSE k \in nz : \A j \in nz : k <= j)
+StripZeros(d) == SubSeq(d, Len(d) + 1 - Sig(d), Len(d))
+IsNumeral(d, P(_)) == d # <<>> /\ AllUnits(d, P)
+HexAtMostMaxCp(d) == LET t == StripZeros(d) IN Len(t) <= 5 \/ (Len(t) = 6 /\ t[1] = 49 /\ t[2] = 48)          \* <= 10FFFF
+\* what the grammar says.  Counts: in the grammar whatever the magnitude, but an implementation may refuse a program it finds too
+\* large ("outside": judged for totality, channel agreement and compile work only); below 10^5 (10^2 for the nested form, whose
+\* program is the product) it has to accept, as for the other quantifier specials.  Decimal escapes: \0 is NUL, \1 after one group a
+\* backreference, anything else is Annex-B territory.  \u{H}: without the u flag Annex B reads it as u{H}; with the u flag it is a
+\* code point escape and an early error unless H is a hexadecimal numeral of value <= 10FFFF.  \xHH, \uHHHH: two / four hexadecimal
+\* digits (the rest of the payload is literal text); fewer is Annex-B territory.
+NumExpect(f, d) ==
+  CASE f.rule = "count5" -> IF IsNumeral(d, IsDecUnit) /\ Sig(d) <= 5 THEN "accept" ELSE "outside"
+    [] f.rule = "count2" -> IF IsNumeral(d, IsDecUnit) /\ Sig(d) <= 2 THEN "accept" ELSE "outside"
+    [] f.rule = "dec0" -> IF d = <<48>> THEN "accept" ELSE "outside"
+    [] f.rule = "backref1" -> IF d \in {<<48>>, <<49>>} THEN "accept" ELSE "outside"
+    [] f.rule \in {"cp", "cpclass"} -> IF IsNumeral(d, IsHexUnit) /\ HexAtMostMaxCp(d) THEN "accept" ELSE "reject"
+    [] f.rule = "hex4" -> IF Len(d) >= 4 /\ AllUnits(d, IsHexUnit) THEN "accept" ELSE "outside"
+    [] f.rule = "hex2" -> IF Len(d) >= 2 /\ AllUnits(d, IsHexUnit) THEN "accept" ELSE "outside"
+    [] OTHER -> "outside"
+\* a count the engine refuses as too large costs it half a second per construction (it emits instructions up to its limit)
+HeavyNum(f, m) == f.name \in CountForms /\ NumExpect(f, m.d) = "outside"
+\* quick: every form x every magnitude and shape, except that the refused counts are taken with every magnitude for the plain form
+\* and with the 31- and 64-bit boundaries for the four other count forms, in the try/catch form of the six channels only
+QuickNum(f, m) == ~HeavyNum(f, m) \/ f.name = "count" \/ m.name \in {"2^31", "2^64"}
+MagsOf(f) == {m \in (IF f.base = "dec" THEN DecMags ELSE HexMags \cup HexShapes) : ~Quick \/ QuickNum(f, m)}
+NumSpecial(f, m) == [name |-> "num-" \o f.name \o "-" \o m.name, head |-> Fill(f.parts, m.d, 1), unit |-> <<>>, count |-> 0, tail |-> <<>>,
+                      expect |-> NumExpect(f, m.d), fl |-> f.fl, numrule |-> f.rule, payload |-> m.d, heavy |-> HeavyNum(f, m),
+                      uncaught |-> ~(Quick /\ HeavyNum(f, m))]
+NumSpecials == UNION {{NumSpecial(f, m) : m \in MagsOf(f)} : f \in NumForms}
+
 \* ---------------- matching grid -----------------------------------------------------------------
 \* [fam, src, unit, tail]: subject = unit^n \o tail
 Family(fam, src, unit, tail) == [fam |-> fam, src |-> U(src), unit |-> U(unit), tail |-> U(tail)]
-Families == {
+\* families whose cost sits in one long matcher run (an attempt, or one lookaround activation, that backtracks)
+LongRunFamilies == {
   Family("nested-plus", "(a+)+b", "a", ""), Family("alt-overlap", "(a|a)*b", "a", ""), Family("star-star", "(a*)*b", "a", ""),
   Family("alt-prefix", "(a|aa)+b", "a", ""), Family("dot-star-star", "(.*)*x", "a", ""),
   Family("lookahead-nested", "(?=(a+)+b)", "a", ""), Family("lookbehind-nested", "(?<=(a+)+)b", "a", "c"),
   Family("bref-loop", "(a+)\\1+b", "a", ""), Family("depth3", "((a+)+)+b", "a", ""),
   Family("plain-star", "a*", "a", ""), Family("alt-star", "(?:a|b)*c", "ab", ""), Family("lazy-dot", "^(.*?,){8}x", "1,", ""),
   Family("lookahead-in-loop", "(?:(?=a)a)*b", "a", ""), Family("optional-chain", "a?a?a?a?a?a?a?a?aaaaaaaa", "a", "")}
+\* families whose cost is the NUMBER of matcher runs, each of a few steps (far below the poll interval and the step budget): a
+\* lookbehind is started from every position at or before the current one (about n^2/2 runs of 1-3 steps), a search fails at
+\* every start position after a few steps, a lookaround inside a loop is one short run per iteration.  Whatever paces polling
+\* and bounds work has to count across runs (RegexVM: pollc is shared by all activations).
+ShortRunFamilies == {
+  Family("lookbehind-scan", "(?<=b)c", "a", ""), Family("neg-lookbehind-scan", "(?<!b)c", "a", ""),
+  Family("many-attempts", "a{20}b", "aaaaaaaaaaaaaaaaaaaac", ""), Family("lookbehind-in-loop", "(?:(?<=a)b|a)+c", "ab", ""),
+  Family("lookahead-scan", "(?=a)b", "a", "")}
+Families == LongRunFamilies \cup ShortRunFamilies
 Lengths == IF Quick THEN {10, 100, 10000} ELSE {10, 30, 100, 1000, 10000}
-Modes == {"api", "api-deadline", "script", "script-deadline"}
+\* the real budgets (regex/vm.py RegexVM defaults)
+StepLimit == 100000
+StackLimit == 10000
+RealPollInterval == 100
+\* -- run configurations: how the matcher is entered and what limits the run ---------------------------------------------------------
+\* mode "api": microjs.regex.RegExp(src, "", poll_callback, poll_interval = interval).exec(subject)
+\* mode "script": var R = new RegExp(P, F); <op> - in a Context; form "try": inside try/catch (does script code receive the error?)
+\* deadline: 0 = none, else a number of hooked steps.  api: the poll callback says stop once that many steps have been counted;
+\*   script: Context(time_limit = deadline) on a virtual clock that advances one second per hooked step (VM or regex)
+\* cap: which counting cap bounds the run ("main": 1.5 / 8 million steps, "aux": 0.4 / 1.5 million; quick / thorough);
+\* lens: the subject lengths the configuration is run with
+Deadlines == {60, 20000}                                    \* shorter than one real poll interval; many poll intervals
+PollIntervals == IF Quick THEN {1, RealPollInterval} ELSE {1, 7, RealPollInterval, 1000}
+ApiCfg(iv, d, cap, lens) == [mode |-> "api", interval |-> iv, op |-> "exec", fl |-> <<>>, form |-> "bare", deadline |-> d, cap |-> cap, lens |-> lens]
+ScriptCfg(op, fl, form, d, cap, lens) == [mode |-> "script", interval |-> RealPollInterval, op |-> op, fl |-> U(fl), form |-> form, deadline |-> d, cap |-> cap, lens |-> lens]
+\* every entry point that runs the matcher on a RegExp object, with the flag that changes how often it runs it
+OpFlags == {<<"test", "">>, <<"test", "g">>, <<"exec", "">>, <<"search", "">>, <<"split", "">>, <<"match", "">>, <<"match", "g">>,
+            <<"replace", "">>, <<"replace", "g">>, <<"replaceAll", "g">>}
+Forms == {"bare", "try"}
+SingleSearch(c) == c.mode = "api" \/ (c.fl = <<>> /\ c.op \in {"test", "exec", "search", "match", "replace"})
+\* every family: the package API with every poll interval, R.test(S) at script level; each without and with a deadline
+BaseCfgs ==
+  {ApiCfg(iv, d, IF iv = 1 THEN "main" ELSE "aux", Lengths) : iv \in PollIntervals, d \in {0} \cup Deadlines}
+  \cup {ScriptCfg("test", "", "bare", d, "main", Lengths) : d \in Deadlines}
+  \cup {ScriptCfg("test", "", "bare", 0, "main", {n \in Lengths : n <= 100}), ScriptCfg("test", "", "bare", 0, "aux", {n \in Lengths : n > 100})}
+\* entry points x forms x deadlines.  quick: the families that cover each way a run ends (step budget, stack budget in the main
+\* loop with and without sub-matcher runs, a match, a match per position, many short runs), shortest and longest subject
+OpFamilyNames == IF Quick THEN {"nested-plus", "star-star", "alt-star", "lookahead-in-loop", "plain-star", "optional-chain", "lookbehind-scan"}
+                 ELSE {f.fam : f \in Families}
+OpLengths == IF Quick THEN {10, 10000} ELSE Lengths
+OpCfgs == {ScriptCfg(o[1], o[2], form, d, "aux", OpLengths) : o \in OpFlags, form \in Forms, d \in {0} \cup Deadlines}
+          \ {ScriptCfg("test", "", "bare", d, "aux", OpLengths) : d \in {0} \cup Deadlines}
+RunConfigs(f) == BaseCfgs \cup (IF f.fam \in OpFamilyNames THEN OpCfgs ELSE {})
 
 \* ---------------- case-folding grid (matching under the i flag) -----------------------------------
 \* subject characters whose upper / lower case mapping is several characters or leaves (enters) ASCII:
@@ -85,7 +192,8 @@ EnumNext == /\ ph = "start" /\ UNCHANGED rec_i
             /\ \/ ph' = "out" /\ cur' = [kind |-> "strings", vocab |-> Vocabulary, maxlen |-> MaxPatLen]
                \/ ph' = "out" /\ cur' = [kind |-> "flags", letters |-> FlagLetters, maxlen |-> MaxFlagLen]
                \/ \E s \in Specials : ph' = "out" /\ cur' = [kind |-> "special"] @@ s
-               \/ \E f \in Families : ph' = "out" /\ cur' = [kind |-> "family", lengths |-> Lengths, modes |-> Modes] @@ f
+               \/ \E s \in NumSpecials : ph' = "out" /\ cur' = [kind |-> "special"] @@ s
+               \/ \E f \in Families : ph' = "out" /\ cur' = [kind |-> "family", runs |-> RunConfigs(f)] @@ f
                \* one record per character: the driver runs patterns x flags x subjects x ops (the cross product stated here)
                \/ \E c \in FoldChars : ph' = "out" /\ cur' = [kind |-> "fold", c |-> c, pats |-> FoldPatterns(c), flags |-> FoldFlags,
                                                                  subjects |-> FoldSubjects(c), ops |-> FoldOps]
@@ -127,6 +235,23 @@ StringChannels == {5, 6}             \* "s".match(P), "s".search(P)
 \* work[1] = -1: the compiler's internals could not be observed (not judged; the absolute counting cap and the watchdog remain).
 WorkFactor(plen) == IF plen >= 10000 THEN 1000000000 ELSE 9 * plen * plen
 ConsWorkOK(r) == r.work[1] < 0 \/ r.work[1] \div (r.work[2] + 1) <= WorkFactor(r.plen)
+\* as-is (regex/parser.py _parse_unicode_escape): the payload of \u{...} goes through the host's integer-literal conversion
+\* int(text, 16), which also takes blanks around the numeral, a sign, a 0x prefix and single underscores between digits; a value
+\* outside 0..10FFFF is refused.  With the u flag ECMA-262 wants one or more hexadecimal digits and nothing else.
+RECURSIVE TrimBlank(_)
+TrimBlank(d) == IF d # <<>> /\ d[1] = 32 THEN TrimBlank(Tail(d)) ELSE IF d # <<>> /\ d[Len(d)] = 32 THEN TrimBlank(SubSeq(d, 1, Len(d) - 1)) ELSE d
+AsIsIntLiteral(d) ==
+  LET t == TrimBlank(d)
+      sgn == t # <<>> /\ t[1] \in {43, 45}
+      u == IF sgn THEN Tail(t) ELSE t
+      pre == Len(u) >= 2 /\ u[1] = 48 /\ u[2] \in {120, 88}
+      v == IF pre THEN SubSeq(u, 3, Len(u)) ELSE u
+      w == IF pre /\ v # <<>> /\ v[1] = 95 THEN Tail(v) ELSE v
+      digits == SelectSeq(w, IsHexUnit)
+  IN /\ w # <<>> /\ IsHexUnit(w[1]) /\ IsHexUnit(w[Len(w)])
+     /\ \A k \in 1..Len(w) : IsHexUnit(w[k]) \/ (w[k] = 95 /\ k < Len(w) /\ w[k + 1] # 95)
+     /\ HexAtMostMaxCp(digits)
+     /\ (sgn /\ t[1] = 45 => \A k \in 1..Len(digits) : digits[k] = 48)
 \* why does the engine disagree with the acceptor?  the grammar with one rule relaxed at a time
 HugeNames == {"quant-huge", "quant-huge-range"}
 ConsVerdict(r) ==
@@ -145,6 +270,10 @@ ConsVerdict(r) ==
         \* lexer.py: "/=" is always taken as the divide-assign token, so a literal whose pattern starts with "=" is a syntax error
         ELSE IF c = 2 /\ cls # "reject" /\ "p" \in DOMAIN r /\ r.p # <<>> /\ r.p[1] = 61 /\ RejectOutcome(c, o) THEN "Dev_LiteralSlashAssign"
         ELSE IF cls = "accept" /\ ~AcceptOutcome(o) THEN "!accept-rejected"
+        ELSE IF cls = "reject" /\ AcceptOutcome(o) /\ "numrule" \in DOMAIN r /\ r.numrule \in {"cp", "cpclass"} /\ AsIsIntLiteral(r.payload) THEN "Dev_UnicodeEscapeDigits"
+        \* as-is (regex/parser.py _parse_class_char): inside a class \x, \u and \c are identity escapes, the text after them is literal
+        \* class text - so [\u{H}] is a class of the characters u { H } whatever H is (unless that text has a range out of order)
+        ELSE IF cls = "reject" /\ AcceptOutcome(o) /\ "numrule" \in DOMAIN r /\ r.numrule = "cpclass" /\ (\A k \in 1..Len(r.payload) : r.payload[k] # 45) THEN "Dev_ClassEscapeLiteral"
         ELSE IF cls = "reject" /\ AcceptOutcome(o) THEN "!reject-accepted"
         \* whatever the class (also outside the judged grammar): a string pattern is accepted iff new RegExp(pattern) accepts it
         ELSE IF c \in StringChannels /\ ref # "skip" /\ TotalOutcome(4, ref) /\ AcceptOutcome(o) # AcceptOutcome(ref) THEN "!string-channel-disagrees"
@@ -190,30 +319,41 @@ ConsInit == /\ rec_i \in 1..Len(Recs) /\ ph = "cons" /\ cur = <<>>
 WhyInit == /\ rec_i \in 1..Len(Recs) /\ ph = "why" /\ cur = <<>> /\ PrintT(ToJson(WhyVerdict(Recs[rec_i])))
 
 \* ---------------- JudgeRun ----------------------------------------------------------------------------
-\* the real budgets (regex/vm.py RegexVM defaults; the run is driven with poll_interval = 1)
-StepLimit == 100000
-StackLimit == 10000
-\* a run record: [id, fam, n, mode, out, ty, attempts, steps: [re, la, lb], maxstep: [re, la, lb], maxstack, polls, calls, capped]
+\* (the real budgets StepLimit, StackLimit, RealPollInterval: see the matching grid)
+Slack == 2       \* the step in flight when the deadline passes
+ErrorClasses == {"RangeError", "TypeError", "SyntaxError", "ReferenceError", "EvalError", "URIError", "Error"}
+\* a run record: [id, fam, n, cfg: the run configuration, out, ty, attempts, steps: [re, la, lb], maxstep: [re, la, lb], maxstack, polls,
+\*                late: regex steps (all loop kinds) counted after the deadline had passed, len]
 RunVerdict(r) ==
   LET total == r.steps.re + r.steps.la + r.steps.lb
+      c == r.cfg
+      api == c.mode = "api"
+      dl == c.deadline > 0
       clauses ==
         <<IF r.maxstep.re <= StepLimit + 1 THEN "" ELSE "!step-bound",                        \* RegexVM.StepBound
-          IF r.attempts <= r.len + 1 THEN "" ELSE "!attempts",
-          IF r.steps.re <= r.attempts * (StepLimit + 1) THEN "" ELSE "!work-bound",            \* RegexVM.WorkBound
+          IF ~SingleSearch(c) \/ r.attempts <= r.len + 1 THEN "" ELSE "!attempts",
+          IF (r.steps.re + StepLimit) \div (StepLimit + 1) <= r.attempts THEN "" ELSE "!work-bound",   \* RegexVM.WorkBound: steps.re <= attempts * (StepLimit + 1), without a product beyond 2^31
           IF r.maxstack <= StackLimit + 1 THEN "" ELSE "!stack-bound",                        \* RegexVM.StackBound
-          IF r.mode \notin {"api", "api-deadline"} \/ r.polls >= total THEN "" ELSE "!poll-bound",   \* RegexVM.PollBound with poll_interval = 1
+          \* RegexVM.PollBound: never `interval` steps without a callback, counted over all attempts and sub-matcher runs of the search
+          IF ~api \/ r.polls >= total \div c.interval THEN "" ELSE "!poll-bound",
           IF r.maxstep.la <= StepLimit + 1 /\ r.maxstep.lb <= StepLimit + 1 THEN "" ELSE "Dev_SubNoStepLimit",   \* RegexVM.SubStepBound
-          \* outcome: a match, null (also: step budget exhausted), or an error of the JSError family
+          \* outcome: a match, null (also: step budget exhausted), another defined value of the entry point, or an error of the JSError family
           CASE r.out \in {"match", "null"} -> ""
-            [] r.out = "jserror" -> IF r.mode \in {"script", "script-deadline"} THEN "" ELSE "!outcome"     \* e.g. RangeError for an exhausted stack
-            [] r.out = "overflow" -> IF r.mode \in {"api", "api-deadline"} /\ r.maxstack > StackLimit THEN "" ELSE "!overflow-below-limit"
+            [] r.out = "value" -> IF ~api /\ c.op \in {"search", "split", "replace", "replaceAll"} THEN "" ELSE "!outcome"
+            [] r.out = "jserror" -> IF ~api THEN "" ELSE "!outcome"                              \* e.g. RangeError for an exhausted stack
+            [] r.out = "caught" -> IF ~api /\ c.form = "try" /\ r.ty \in ErrorClasses THEN "" ELSE "!outcome"   \* the script's catch clause received it
+            [] r.out = "overflow" -> IF api /\ r.maxstack > StackLimit THEN "" ELSE "!overflow-below-limit"
             [] r.out = "capped" -> ""                                                          \* bounded by counting: every clause above held on the observed prefix
-            [] r.out = "timeout" -> IF r.mode \in {"api-deadline", "script-deadline"} THEN "" ELSE "!timeout-without-deadline"
+            [] r.out = "timeout" -> IF dl THEN "" ELSE "!timeout-without-deadline"
             [] r.out = "host" /\ r.ty = "RegexStackOverflow" -> IF r.maxstack > StackLimit THEN "Dev_StackOverflowHost" ELSE "!overflow-below-limit"
             [] OTHER -> "!outcome",
           \* a deadline must end the run: the poll callback said stop, the matcher may not go on
-          IF r.mode \in {"api-deadline", "script-deadline"} /\ r.out = "capped" THEN "!deadline-ignored" ELSE "">>
-  IN [id |-> r.id, bad |-> SelectSeq(clauses, LAMBDA c : c # "")]
+          IF dl /\ r.out = "capped" THEN "!deadline-ignored" ELSE "",
+          \* RegexVM.LateBound: once the deadline has passed the matcher runs at most one poll interval of steps, however the run
+          \* ends (stopped, or finished on its own just before the next poll) and however the steps are spread over attempts and
+          \* sub-matcher runs.  Judged in steps: the clock of the run is virtual.
+          IF dl /\ r.late > (IF api THEN c.interval ELSE RealPollInterval) + Slack THEN "!deadline-overrun" ELSE "">>
+  IN [id |-> r.id, bad |-> SelectSeq(clauses, LAMBDA x : x # "")]
 RunInit == /\ rec_i \in 1..Len(Recs) /\ ph = "run" /\ cur = <<>> /\ PrintT(ToJson(RunVerdict(Recs[rec_i])))
 
 \* ---------------- JudgeFold ---------------------------------------------------------------------------
